@@ -151,7 +151,7 @@ theorem build_built {cb : Cb α K} (hcb : CbOk cb) (draws : List Nat) :
         ((nthElementExec (cb.lt vp) ((a :: b :: rest).length / 2 - 1) tail).drop ((a :: b :: rest).length / 2 - 1))
         (by rw [length_drop, holen]; simp only [length_cons] at h htl ⊢; omega)
       simp only [hmed]
-      exact Built.node (a :: b :: rest) _ vp tail _ _ _ _ hlen2 hoff hs hnth hmed hB1 hB2
+      exact Built.node (a :: b :: rest) _ vp tail _ _ _ _ hlen2 (by omega) hs hnth hmed hB1 hB2
 
 /-! ### the wrapper -/
 
